@@ -18,7 +18,7 @@ RULE = ("complete enumeration of call shapes: {@symbolic_function plain function
         "Predicate subclass} x arity 1..3 x number of trailing defaults x per parameter {variable positional, variable "
         "keyword, concrete positional, concrete keyword, omitted} (positional before keyword), each evaluated over "
         "random 2-3 element domains, then evaluated a second time after the bound objects changed, and once more as the "
-        "second condition of a query that binds a further variable; random repetitions with other worlds in the thorough tier.  Non-trivial = the call "
+        "second condition of a query that binds a further variable, and once directly under not_; random repetitions with other worlds in the thorough tier.  Non-trivial = the call "
         "has at least one variable argument; distinct = the call shape")
 ASSUMPTIONS = ["all generated functions / methods / predicate classes share one qualified name per kind (re-definitions "
                "with other signatures), so state keyed by name instead of by object is exposed",
@@ -35,7 +35,8 @@ def plan(tier):
     return {"cases": 0 if tier == "quick" else 20000, "shards": 16, "case_timeout": 20, "shard_timeout": 1800,
             "min_nontrivial": 100,
             "min_counters": {"body_calls_checked": 2000, "concrete_calls": 100, "symbolic_constructions": 300,
-                             "reevaluations_with_changed_truth": 100, "bystander_queries": 300}}
+                             "reevaluations_with_changed_truth": 100, "bystander_queries": 300,
+                             "negated_queries_with_answers": 100}}
 
 
 LOG = []
@@ -140,7 +141,7 @@ def witnesses():
 
 def run(spec, ctx):
     import random
-    from krrood.entity_query_language.entity import let, set_of, entity, and_
+    from krrood.entity_query_language.entity import let, set_of, entity, and_, not_
     from krrood.entity_query_language.quantify_entity import an
     from krrood.entity_query_language.symbolic import SymbolicExpression
     m = ctx["m"]
@@ -278,6 +279,23 @@ def run(spec, ctx):
     want_rows3 = sorted((id(zz),) + r for zz in zdom for r in want_rows2)
     if sorted(rows3) != want_rows3:
         problems.append(f"with a second bound variable: rows {len(rows3)} != {len(want_rows3)}")
+    # the call directly under a negation: the complement of the bindings, still one call per candidate binding
+    LOG.clear()
+    try:
+        res4 = call(*pos, **kw)
+        rows4 = [tuple(id(r[v]) for v in sel) for r in an(set_of(sel, not_(res4))).evaluate()]
+    except Exception as e:
+        return {"status": "fail", "kind": "negation-exception:" + type(e).__name__, "key": None,
+                "detail": f"{shape}: {type(e).__name__}: {e}"[:300]}
+    C["negated_queries"] += 1
+    C["body_calls_checked"] += len(LOG)
+    if sorted(tuple(map(id, c)) for c in LOG) != want_calls:
+        problems.append(f"under not_: {len(LOG)} calls vs {len(want_calls)} candidate bindings")
+    want_rows4 = sorted(tuple(id(b[i]) for i in var_params) for b in bindings if not _truth(param_values(b)))
+    if sorted(rows4) != want_rows4:
+        problems.append(f"under not_: rows {len(rows4)} != {len(want_rows4)} bindings for which the concrete call is false")
+    if want_rows4:
+        C["negated_queries_with_answers"] += 1
     if problems:
         return {"status": "fail", "kind": "symbolic-evaluation-history", "key": None, "detail": shape + ": " + "; ".join(problems)}
     return {"status": "ok", "nontrivial": True, "shape": shape, "obs": {"calls": len(got_calls), "rows": len(rows)}}
